@@ -101,7 +101,13 @@ Progress ==
   /\ IF l > TLCGet(1)[tid] THEN TLCSet(1, [TLCGet(1) EXCEPT ![tid] = l]) ELSE TRUE
   /\ \A n \in FailedState : Rec(n)
   /\ ("C06_Legal" \in CheckProps /\ ~AuditLegal) => Rec("C06_AuditLegal")
-CheckActions == \A n \in CheckProps \cap ActionPropNames : (AP(n) \/ Rec(n))
+(* C01 / C02 / C10 data clause: what a task sees (hash of the user-visible context handed to Task.execute, logged
+   with every exec event) is one of the views it saw in the fault-free in-order run *)
+SameData == (l <= Len(Events) /\ Ev.e = "exec" /\ "vh" \in DOMAIN Ev /\ Ev.task \in DOMAIN RefViews)
+               => (Ev.vh \in RefViews[Ev.task] \/ "*" \in RefViews[Ev.task])
+CheckActions ==
+  /\ \A n \in CheckProps \cap ActionPropNames : (AP(n) \/ Rec(n))
+  /\ ("C01_SameData" \in CheckProps /\ ~SameData) => Rec("C01_SameData")
 Accepted ==
   /\ PrintT(<<"PREFIX", TLCGet(1)>>)
   /\ PrintT(<<"FAILED", TLCGet(2)>>)
